@@ -872,7 +872,12 @@ func Main() {
 			if nodes[e].regErr != "" {
 				stats.RegFailures = append(stats.RegFailures, bp.Tag+"/"+e+": "+nodes[e].regErr)
 				dummy := &ReqPlan{ID: bp.Tag + "-reg", Class: "registration"}
-				j.add("C02", "C02|"+e+"|registration-panic", "registration-panic",
+				cause := "other"
+				if strings.Contains(nodes[e].regErr, "conflicts with existing wildcard") || strings.Contains(nodes[e].regErr, "wildcard") {
+					cause = "wildcard-name-conflict"
+				}
+				dummy.Tags = []string{cause}
+				j.add("C02", "", "registration-panic",
 					fmt.Sprintf("RegisterRoutes panicked for an accepted project, so this engine serves none of its routes: %s", clip(nodes[e].regErr, 300)), e, []*ReqPlan{dummy}, dummy, 0, nil)
 			}
 		}
